@@ -1,7 +1,7 @@
 ICU_ROOTS = ['Teakra::ICU::' + f for f in ('Trigger', 'Acknowledge', 'SetEnable', 'SetEnableVectored', 'GetRequest', 'GetEnable', 'GetEnableVectored', 'GetVector', 'TriggerSingle')]
 U = {'unwind': 17}
-PLAN = {
-    'property': 'C07',
+ICU_PLAN = {
+    'property': 'C07', 'part': 'icu',
     'units': [{'name': 'icu', 'tu': 'src/teakra.cpp', 'roots': ICU_ROOTS, 'must_fire': ['std::bitset<16> -> u16', 'std::function invocation -> CB_<Class>_<field> stub']}],
     'harness_files': ['harness/c07_icu.c'], 'contract_files': ['contracts/icu_contracts.h'], 'spec_files': ['spec/icu_spec.h'],
     'native': {'bridges': ['replay/bridge_icu.cpp']},
@@ -16,5 +16,31 @@ PLAN = {
     'trusted_base': ['the core-side entry points (Processor::SignalInterrupt / SignalVectoredInterrupt) behind std::function are delivery recorders in the ICU half',
                      'std::bitset<16> modelled as u16; locks dropped (sequential)'],
     'assumptions': ['interrupt_index < 3, irq < 16 (constants at every call site in teakra.cpp / mmio.cpp; bounds are C18 obligations)'],
-    'not_covered': ['core half of the property (Interpreter::Run latch/dispatch block, PushPC, ContextStore, reti): processor unit not yet part of this plan'],
+    'not_covered': [],
 }
+
+# ---- processor-core half: the latch / priority scan / entry sequence of Interpreter::Run, stated over Run(1) on the extracted interpreter
+import os, sys, copy
+sys.path.insert(0, os.path.dirname(os.path.abspath(__file__)))
+from core_unit import CORE_UNIT
+CU = copy.deepcopy(CORE_UNIT)
+CU['roots'] = CU['roots'] + ['Teakra::Interpreter::SignalInterrupt', 'Teakra::Interpreter::SignalVectoredInterrupt']
+CW = ['Interpreter_' + n for n in ('Run', 'ContextStore', 'SignalInterrupt', 'SignalVectoredInterrupt')]
+CU['wrappers'] = CW; CU['require_functions'] = CU['require_functions'] + CW
+def cob(e, n, x=None):
+    d = {'id': 'core_' + e[2:], 'entry': e, 'enforce': [], 'replace': [], 'unwind': 9, 'timeout': 600, 'expect_classes': {'assertion': n}, 'min_obligations': n, 'checks': [], 'standard_checks': False, 'object_bits': 12,
+         'defines': ['-DAM_CELLS=2', '-DAM_PCELLS=2']}
+    d.update(x or {}); return d
+CORE_PLAN = {
+    'property': 'C07', 'part': 'core',
+    'units': [CU],
+    'harness_files': ['harness/c07_core.c'], 'contract_files': [], 'spec_files': ['spec/regs_spec.h'],
+    'native': {'bridges': ['replay/bridge_proc.cpp']},
+    'fidelity_samples': {'quick': 3000, 'thorough': 100000},
+    'obligations': [cob('h_irq_dispatch', 5), cob('h_irq_once', 4), cob('h_signal', 3)],
+    'trusted_base': ['interrupt entry is stated over Interpreter::Run(1) with the interrupted instruction fixed to nop (word 0x0000): under CBMC the dispatch of that word is a no-op stub, natively the real decode table runs; that an arbitrary instruction leaves the latches alone is C01/C18 (no handler names them)',
+                     'stack memory is the footprint abstraction of harness/absmem.h; ContextStore itself is pinned by C08 (context round trip) and used here as the expected effect of a configured context switch'],
+    'assumptions': ['no block repeat active at the boundary (lp = 0; loop bookkeeping is C09), prpage = 0, pc + 1 and the vector inside program space (C18 owns the other cases)'],
+    'not_covered': ['the wiring of peripherals to IRQ numbers in Teakra::Impl::Impl (std::function closures in teakra.cpp)', 'interleavings across threads (C19)'],
+}
+PLAN = {'property': 'C07', 'parts': [ICU_PLAN, CORE_PLAN]}
